@@ -177,7 +177,9 @@ func cmdRing(args []string) {
 		f = strings.TrimSpace(f)
 		var obs []ringObl
 		var err error
-		if eng.contracts[f+"#exp"] != nil {
+		if eng.contracts[f+"#gexp"] != nil {
+			obs, err = eng.VerifyGexp(f)
+		} else if eng.contracts[f+"#exp"] != nil {
 			obs, err = eng.VerifyExp(f)
 		} else {
 			obs, err = eng.VerifyRing(f)
